@@ -1,6 +1,6 @@
 SPECIFICATION Spec
 CONSTANTS
-  Kinds = {"PID", "CmdPID", "EWMA", "EWMAQ", "MA", "MAQ", "Integral", "Derivative", "AccToState", "VelToState", "PosToState", "F2Q", "Q2F", "Freeze"}
+  Kinds = {"PID", "CmdPID", "CmdPIDF", "EWMA", "EWMAQ", "MA", "MAQ", "Integral", "Derivative", "AccToState", "VelToState", "PosToState", "F2Q", "Q2F", "Freeze"}
   MaxLen = 4
   Emit = FALSE
   DimCheck = TRUE
